@@ -129,13 +129,13 @@ func zrntFrame() string {
 }
 
 type exec struct {
-	cfg  *Config
-	opt  core.Options
-	res  *core.Result
-	log  core.LogHasher
-	step int
-	stop bool
-	enumerated int // sink-failure enumerations done in this run
+	cfg        *Config
+	opt        core.Options
+	res        *core.Result
+	log        core.LogHasher
+	step       int
+	stop       bool
+	enumerated int             // sink-failure enumerations done in this run
 	partial    bool            // the store is in a state the model does not follow: the run must end
 	own        bool            // a finding of the property under check was recorded
 	foreign    map[string]bool // findings of other properties already recorded
@@ -340,186 +340,216 @@ func (x *exec) audit(n *simNode) {
 	}
 	// queries that depend on the canonical head from an anchor
 	for _, l := range labels {
-		es, _ := m.earliest(l)
-		start := Ref{l, es}
-		hl, _, viaL := m.Ghost(start, RelLegacy)
-		hr, _, viaR := m.Ghost(start, RelReadme)
-		if hl != hr || !viaL || !viaR {
-			continue // two-graph or non-viable: head-dependent queries are not compared
-		}
-		hi := m.idx[hl]
-		si := m.idx[start]
-		// CanonicalChain: prefix from the head down to the anchor node
-		var chain []common.ExtendedNodeRef
-		var err error
-		if p := guard(func() { chain, err = fc.CanonicalChain(cRoot(l), common.Slot(es)) }); p != nil {
-			x.panicked("C11", "CanonicalChain", p)
-			return
-		}
-		x.res.Stat("q_canonchain", 1)
-		var exp []int
-		for j := hi; j >= 0; j = m.nodes[j].TP {
-			exp = append(exp, j)
-			if j == si {
+		e0, _ := m.earliest(l)
+		// anchors: the first node of the root, and later slot nodes of the same root (the gap slots after
+		// the block): from those, only what hangs off the later slots is in the subtree
+		anchorSlots := []uint64{e0}
+		var later []uint64
+		for t := e0 + 1; ; t++ {
+			if j, ok := m.idx[Ref{l, t}]; ok && m.nodes[j].Alive {
+				later = append(later, t)
+			} else {
 				break
 			}
 		}
-		if err != nil || len(chain) < len(exp) {
-			x.viol("C11", "C11/CanonicalChain/mismatch", fmt.Sprintf("anchor %v head %v: err=%v len=%d expected>=%d", start, hl, err, len(chain), len(exp)))
-			return
-		}
-		for k, j := range exp {
-			mn := &m.nodes[j]
-			if n.refOf(chain[k].NodeRef) != mn.Ref || n.lab(chain[k].ParentRoot) != mn.ParentRoot {
-				x.viol("C11", "C11/CanonicalChain/mismatch", fmt.Sprintf("anchor %v entry %d expected %v parent %d got %v parent %d", start, k, mn.Ref, mn.ParentRoot, n.refOf(chain[k].NodeRef), n.lab(chain[k].ParentRoot)))
-				return
+		if len(later) > 0 {
+			anchorSlots = append(anchorSlots, later[(x.step+int(l))%len(later)])
+			if len(later) > 1 {
+				anchorSlots = append(anchorSlots, later[len(later)-1])
 			}
 		}
-		// CanonAtSlot
-		for _, s := range []uint64{es, es + 1, (es + hl.S) / 2, hl.S, hl.S + 2} {
-			for _, wb := range []bool{false, true} {
-				var got common.NodeRef
-				var err error
-				if p := guard(func() { got, err = fc.CanonAtSlot(cRoot(l), common.Slot(s), wb) }); p != nil {
-					x.panicked("C11", "CanonAtSlot", p)
+		for ai, es := range anchorSlots {
+			if ai > 0 {
+				x.res.Stat("q_anchor_later_slot_node", 1)
+			}
+			start := Ref{l, es}
+			hl, _, viaL := m.Ghost(start, RelLegacy)
+			hr, _, viaR := m.Ghost(start, RelReadme)
+			if hl != hr || !viaL || !viaR {
+				continue // two-graph or non-viable: head-dependent queries are not compared
+			}
+			hi := m.idx[hl]
+			si := m.idx[start]
+			// CanonicalChain: prefix from the head down to the anchor node
+			var chain []common.ExtendedNodeRef
+			var err error
+			if p := guard(func() { chain, err = fc.CanonicalChain(cRoot(l), common.Slot(es)) }); p != nil {
+				x.panicked("C11", "CanonicalChain", p)
+				return
+			}
+			x.res.Stat("q_canonchain", 1)
+			var exp []int
+			for j := hi; j >= 0; j = m.nodes[j].TP {
+				exp = append(exp, j)
+				if j == si {
+					break
+				}
+			}
+			if err != nil || len(chain) < len(exp) {
+				x.viol("C11", "C11/CanonicalChain/mismatch", fmt.Sprintf("anchor %v head %v: err=%v len=%d expected>=%d", start, hl, err, len(chain), len(exp)))
+				return
+			}
+			for k, j := range exp {
+				mn := &m.nodes[j]
+				if n.refOf(chain[k].NodeRef) != mn.Ref || n.lab(chain[k].ParentRoot) != mn.ParentRoot {
+					x.viol("C11", "C11/CanonicalChain/mismatch", fmt.Sprintf("anchor %v entry %d expected %v parent %d got %v parent %d", start, k, mn.Ref, mn.ParentRoot, n.refOf(chain[k].NodeRef), n.lab(chain[k].ParentRoot)))
 					return
 				}
-				x.res.Stat("q_canonat", 1)
-				if s == es {
-					if !wb && m.nodes[si].IsBlock {
-						if err == nil {
-							x.viol("C11", "C11/CanonAtSlot/no-error", fmt.Sprintf("anchor %v is a block node, pre-block node requested, got %v", start, n.refOf(got)))
-							return
-						}
-					} else if err != nil || n.refOf(got) != start {
-						x.viol("C11", "C11/CanonAtSlot/mismatch", fmt.Sprintf("anchor %v slot %d withBlock=%v expected anchor got %v err=%v", start, s, wb, n.refOf(got), err))
+			}
+			// CanonAtSlot
+			canonSlots := []uint64{es, es + 1, (es + hl.S) / 2, hl.S, hl.S + 2}
+			if ai > 0 {
+				canonSlots = nil // (CanonAtSlot is anchored by root: the first node)
+			}
+			for _, s := range canonSlots {
+				for _, wb := range []bool{false, true} {
+					var got common.NodeRef
+					var err error
+					if p := guard(func() { got, err = fc.CanonAtSlot(cRoot(l), common.Slot(s), wb) }); p != nil {
+						x.panicked("C11", "CanonAtSlot", p)
 						return
 					}
-					continue
-				}
-				if hl.S <= s {
-					if err != nil || n.refOf(got) != hl {
-						x.viol("C11", "C11/CanonAtSlot/mismatch", fmt.Sprintf("anchor %v slot %d beyond head: expected head %v got %v err=%v", start, s, hl, n.refOf(got), err))
-						return
-					}
-					continue
-				}
-				// walk back from the head
-				var slotNode, blockNode *MNode
-				for j := hi; j >= 0 && m.nodes[j].Ref.S >= s; j = m.nodes[j].TP {
-					if m.nodes[j].Ref.S == s {
-						if m.nodes[j].IsBlock {
-							blockNode = &m.nodes[j]
-						} else {
-							slotNode = &m.nodes[j]
-						}
-					}
-					if j == si {
-						break
-					}
-				}
-				if wb {
-					if blockNode != nil {
-						if err != nil || n.refOf(got) != blockNode.Ref {
-							x.viol("C11", "C11/CanonAtSlot/mismatch", fmt.Sprintf("anchor %v slot %d withBlock expected %v got %v err=%v", start, s, blockNode.Ref, n.refOf(got), err))
+					x.res.Stat("q_canonat", 1)
+					if s == es {
+						if !wb && m.nodes[si].IsBlock {
+							if err == nil {
+								x.viol("C11", "C11/CanonAtSlot/no-error", fmt.Sprintf("anchor %v is a block node, pre-block node requested, got %v", start, n.refOf(got)))
+								return
+							}
+						} else if err != nil || n.refOf(got) != start {
+							x.viol("C11", "C11/CanonAtSlot/mismatch", fmt.Sprintf("anchor %v slot %d withBlock=%v expected anchor got %v err=%v", start, s, wb, n.refOf(got), err))
 							return
 						}
-					} else if slotNode != nil {
-						if err != nil || got != (common.NodeRef{}) {
-							x.viol("C11", "C11/CanonAtSlot/mismatch", fmt.Sprintf("anchor %v slot %d withBlock: empty slot, expected zero ref, got %v err=%v", start, s, n.refOf(got), err))
+						continue
+					}
+					if hl.S <= s {
+						if err != nil || n.refOf(got) != hl {
+							x.viol("C11", "C11/CanonAtSlot/mismatch", fmt.Sprintf("anchor %v slot %d beyond head: expected head %v got %v err=%v", start, s, hl, n.refOf(got), err))
 							return
 						}
+						continue
 					}
-				} else if slotNode != nil {
-					if err != nil || n.refOf(got) != slotNode.Ref {
-						x.viol("C11", "C11/CanonAtSlot/mismatch", fmt.Sprintf("anchor %v slot %d pre-block expected %v got %v err=%v", start, s, slotNode.Ref, n.refOf(got), err))
-						return
-					}
-				}
-			}
-		}
-		// Search: heads, by parent, by slot
-		type q struct {
-			parent *Label
-			slot   *uint64
-		}
-		// (the no-filter "heads" form of Search is not named by the property and its
-		// documentation is ambiguous: not compared)
-		qs := []q{}
-		if len(labels) > 0 {
-			pl := labels[(int(l)+x.step)%len(labels)]
-			qs = append(qs, q{&pl, nil})
-			sl := m.nodes[hi].Ref.S
-			qs = append(qs, q{nil, &sl})
-			qs = append(qs, q{&m.nodes[hi].ParentRoot, &sl})
-		}
-		for _, qq := range qs {
-			var pr *common.Root
-			var sl *common.Slot
-			if qq.parent != nil {
-				r := cRoot(*qq.parent)
-				pr = &r
-			}
-			if qq.slot != nil {
-				s := common.Slot(*qq.slot)
-				sl = &s
-			}
-			var nonCanon, canon []common.NodeRef
-			var err error
-			if p := guard(func() {
-				nonCanon, canon, err = fc.Search(common.NodeRef{Root: cRoot(l), Slot: common.Slot(es)}, pr, sl)
-			}); p != nil {
-				x.panicked("C11", "Search", p)
-				return
-			}
-			x.res.Stat("q_search", 1)
-			var expCanon, expNon []Ref
-			for j := range m.nodes {
-				mn := &m.nodes[j]
-				if !mn.Alive || !mn.IsBlock || !m.isAnc(si, j) {
-					continue
-				}
-				if qq.parent == nil && qq.slot == nil {
-					// heads: block nodes without block descendants
-					hasBlockDesc := false
-					for k := j + 1; k < len(m.nodes); k++ {
-						if m.nodes[k].Alive && m.nodes[k].IsBlock && m.isAnc(j, k) {
-							hasBlockDesc = true
+					// walk back from the head
+					var slotNode, blockNode *MNode
+					for j := hi; j >= 0 && m.nodes[j].Ref.S >= s; j = m.nodes[j].TP {
+						if m.nodes[j].Ref.S == s {
+							if m.nodes[j].IsBlock {
+								blockNode = &m.nodes[j]
+							} else {
+								slotNode = &m.nodes[j]
+							}
+						}
+						if j == si {
 							break
 						}
 					}
-					if hasBlockDesc {
-						continue
-					}
-				} else {
-					if qq.parent != nil && mn.ParentRoot != *qq.parent {
-						continue
-					}
-					if qq.slot != nil && mn.Ref.S != *qq.slot {
-						continue
+					if wb {
+						if blockNode != nil {
+							if err != nil || n.refOf(got) != blockNode.Ref {
+								x.viol("C11", "C11/CanonAtSlot/mismatch", fmt.Sprintf("anchor %v slot %d withBlock expected %v got %v err=%v", start, s, blockNode.Ref, n.refOf(got), err))
+								return
+							}
+						} else if slotNode != nil {
+							if err != nil || got != (common.NodeRef{}) {
+								x.viol("C11", "C11/CanonAtSlot/mismatch", fmt.Sprintf("anchor %v slot %d withBlock: empty slot, expected zero ref, got %v err=%v", start, s, n.refOf(got), err))
+								return
+							}
+						}
+					} else if slotNode != nil {
+						if err != nil || n.refOf(got) != slotNode.Ref {
+							x.viol("C11", "C11/CanonAtSlot/mismatch", fmt.Sprintf("anchor %v slot %d pre-block expected %v got %v err=%v", start, s, slotNode.Ref, n.refOf(got), err))
+							return
+						}
 					}
 				}
-				if m.isAnc(j, hi) {
-					expCanon = append(expCanon, mn.Ref)
-				} else {
-					expNon = append(expNon, mn.Ref)
+			}
+			// Search: heads, by parent, by slot
+			type q struct {
+				parent *Label
+				slot   *uint64
+			}
+			// (the no-filter "heads" form of Search is not named by the property and its
+			// documentation is ambiguous: not compared)
+			qs := []q{}
+			if len(labels) > 0 {
+				pl := labels[(int(l)+x.step)%len(labels)]
+				qs = append(qs, q{&pl, nil})
+				sl := m.nodes[hi].Ref.S
+				qs = append(qs, q{nil, &sl})
+				qs = append(qs, q{&m.nodes[hi].ParentRoot, &sl})
+				// the blocks built on the anchor's own root (from an anchor that is a later slot node of that
+				// root these are the blocks built on the still later slots, on and off the best chain)
+				own := l
+				qs = append(qs, q{&own, nil})
+			}
+			for _, qq := range qs {
+				var pr *common.Root
+				var sl *common.Slot
+				if qq.parent != nil {
+					r := cRoot(*qq.parent)
+					pr = &r
 				}
-			}
-			gc := make([]Ref, len(canon))
-			for i, r := range canon {
-				gc[i] = n.refOf(r)
-			}
-			gn := make([]Ref, len(nonCanon))
-			for i, r := range nonCanon {
-				gn[i] = n.refOf(r)
-			}
-			if err != nil || !refsEqual(append(append([]Ref{}, gc...), gn...), append(append([]Ref{}, expCanon...), expNon...)) {
-				x.viol("C11", "C11/Search/result-set", fmt.Sprintf("anchor %v parent=%v slot=%v expected canon=%v non=%v got canon=%v non=%v err=%v", start, ptrL(qq.parent), ptrS(qq.slot), expCanon, expNon, gc, gn, err))
-				return
-			}
-			if !refsEqual(gc, expCanon) {
-				x.viol("C11", "C11/Search/canonical-split", fmt.Sprintf("anchor %v parent=%v slot=%v expected canon=%v got canon=%v", start, ptrL(qq.parent), ptrS(qq.slot), expCanon, gc))
-				return
+				if qq.slot != nil {
+					s := common.Slot(*qq.slot)
+					sl = &s
+				}
+				var nonCanon, canon []common.NodeRef
+				var err error
+				if p := guard(func() {
+					nonCanon, canon, err = fc.Search(common.NodeRef{Root: cRoot(l), Slot: common.Slot(es)}, pr, sl)
+				}); p != nil {
+					x.panicked("C11", "Search", p)
+					return
+				}
+				x.res.Stat("q_search", 1)
+				var expCanon, expNon []Ref
+				for j := range m.nodes {
+					mn := &m.nodes[j]
+					if !mn.Alive || !mn.IsBlock || !m.isAnc(si, j) {
+						continue
+					}
+					if qq.parent == nil && qq.slot == nil {
+						// heads: block nodes without block descendants
+						hasBlockDesc := false
+						for k := j + 1; k < len(m.nodes); k++ {
+							if m.nodes[k].Alive && m.nodes[k].IsBlock && m.isAnc(j, k) {
+								hasBlockDesc = true
+								break
+							}
+						}
+						if hasBlockDesc {
+							continue
+						}
+					} else {
+						if qq.parent != nil && mn.ParentRoot != *qq.parent {
+							continue
+						}
+						if qq.slot != nil && mn.Ref.S != *qq.slot {
+							continue
+						}
+					}
+					if m.isAnc(j, hi) {
+						expCanon = append(expCanon, mn.Ref)
+					} else {
+						expNon = append(expNon, mn.Ref)
+					}
+				}
+				gc := make([]Ref, len(canon))
+				for i, r := range canon {
+					gc[i] = n.refOf(r)
+				}
+				gn := make([]Ref, len(nonCanon))
+				for i, r := range nonCanon {
+					gn[i] = n.refOf(r)
+				}
+				if err != nil || !refsEqual(append(append([]Ref{}, gc...), gn...), append(append([]Ref{}, expCanon...), expNon...)) {
+					x.viol("C11", "C11/Search/result-set", fmt.Sprintf("anchor %v parent=%v slot=%v expected canon=%v non=%v got canon=%v non=%v err=%v", start, ptrL(qq.parent), ptrS(qq.slot), expCanon, expNon, gc, gn, err))
+					return
+				}
+				if !refsEqual(gc, expCanon) {
+					x.viol("C11", "C11/Search/canonical-split", fmt.Sprintf("anchor %v parent=%v slot=%v expected canon=%v got canon=%v", start, ptrL(qq.parent), ptrS(qq.slot), expCanon, gc))
+					return
+				}
 			}
 		}
 	}
@@ -814,7 +844,9 @@ func (x *exec) doUpdate(n *simNode, op *Op, relaxedFork bool) {
 						missing = append(missing, r)
 					}
 				}
-				sort.Slice(missing, func(i, j int) bool { return missing[i].S < missing[j].S || (missing[i].S == missing[j].S && missing[i].L < missing[j].L) })
+				sort.Slice(missing, func(i, j int) bool {
+					return missing[i].S < missing[j].S || (missing[i].S == missing[j].S && missing[i].L < missing[j].L)
+				})
 				x.viol("C10", "C10/prune/non-descendant-retained", fmt.Sprintf("anchor %v: %d node(s) that are not descendants were not reported as pruned, e.g. %v", anchor, len(missing), missing[0]))
 				x.stop = true
 				return
